@@ -98,6 +98,32 @@ type member struct {
 	node   *vnode.Node // process (may be stopped)
 	alive  bool
 	deadAt time.Time // when the harness stopped/killed the process (valid while !alive)
+
+	// Unknown outcomes: an operation on this member returned an error after its configuration entry
+	// may already have been appended ("leadership lost while committing log", timeouts, lost
+	// responses, ...). Until a later ACKNOWLEDGED operation on the same member settles it, the
+	// member may also be in one of the alternative forms, or absent.
+	alts     []string // further acceptable "id@addr/role" forms
+	absentOK bool     // absence from the configuration is acceptable
+}
+
+func form(id, addr string, voter bool) string {
+	if voter {
+		return id + "@" + addr + "/voter"
+	}
+	return id + "@" + addr + "/nonvoter"
+}
+
+func (m *member) sure() bool { return len(m.alts) == 0 && !m.absentOK }
+
+func (m *member) settle() { m.alts, m.absentOK = nil, false }
+
+// cleanReject reports whether err proves that no configuration entry was appended: raft's own
+// validation of the new configuration, or a request that never left the harness network.
+func cleanReject(err error) bool {
+	s := err.Error()
+	return strings.Contains(s, "found duplicate") || strings.Contains(s, "need at least one voter") ||
+		strings.Contains(s, "failed to resolve") || strings.Contains(s, "vnet:")
 }
 
 type env struct {
@@ -191,9 +217,33 @@ func (e *env) check(after string) (sig, msg string, inconclusive bool) {
 	}
 	var cfg []string
 	var err error
-	// the leader applies its own configuration changes at once; poll briefly for the model state
+	// the leader applies its own configuration changes at once; poll briefly for an acceptable state
 	deadline := time.Now().Add(5 * time.Second)
 	want := e.modelString()
+	acceptable := func(cfg []string) bool {
+		got := map[string]string{}
+		for _, s := range cfg {
+			got[s[:strings.Index(s, "@")]] = s
+		}
+		for id, m := range e.model {
+			s, ok := got[id]
+			if !ok {
+				if !m.absentOK {
+					return false
+				}
+				continue
+			}
+			okForm := s == form(id, m.addr, m.voter)
+			for _, a := range m.alts {
+				okForm = okForm || s == a
+			}
+			if !okForm {
+				return false
+			}
+			delete(got, id)
+		}
+		return len(got) == 0
+	}
 	for {
 		cfg, err = vnode.Config(l)
 		if err != nil {
@@ -202,7 +252,7 @@ func (e *env) check(after string) (sig, msg string, inconclusive bool) {
 		if s, m := uniq(cfg); s != "" {
 			return s, fmt.Sprintf("%s in the configuration of leader %s after %s: %v", m, l.Name, after, cfg), false
 		}
-		if strings.Join(cfg, " ") == want || time.Now().After(deadline) {
+		if acceptable(cfg) || time.Now().After(deadline) {
 			break
 		}
 		time.Sleep(25 * time.Millisecond)
@@ -221,7 +271,17 @@ func (e *env) check(after string) (sig, msg string, inconclusive bool) {
 		if !m.voter {
 			role = "nonvoter"
 		}
+		if ok {
+			for _, a := range m.alts {
+				if s == a {
+					e.rec.Label("unknown-outcome:alternative-form-observed")
+					s = form(id, m.addr, m.voter) // acceptable
+				}
+			}
+		}
 		switch {
+		case !ok && m.absentOK:
+			e.rec.Label("unknown-outcome:absent-observed")
 		case !ok && !m.alive:
 			// a member whose process is gone may be reaped -- judged by its role's timeout
 			timeout := e.c.Opts.ReapTimeout
@@ -241,15 +301,16 @@ func (e *env) check(after string) (sig, msg string, inconclusive bool) {
 		case !ok:
 			return "C32/member-missing", fmt.Sprintf("member %s (acknowledged join, never removed) is not in the configuration %v after %s; model: %s", id, cfg, after, want), false
 		case !strings.HasSuffix(s, "/"+role):
-			return "C32/role-not-as-requested", fmt.Sprintf("member %s asked for role %s but the configuration has %s after %s; configuration %v", id, role, s, after, cfg), false
+			return "C32/role-not-as-requested", fmt.Sprintf("member %s asked for role %s but the configuration has %s after %s; configuration %v; other acceptable forms %v", id, role, s, after, cfg, m.alts), false
 		case s != id+"@"+m.addr+"/"+role:
-			return "C32/address-not-as-requested", fmt.Sprintf("member %s announced address %s but the configuration has %s after %s", id, m.addr, s, after), false
+			return "C32/address-not-as-requested", fmt.Sprintf("member %s announced address %s but the configuration has %s after %s; other acceptable forms %v", id, m.addr, s, after, m.alts), false
 		}
 		delete(got, id)
 	}
 	for id, s := range got {
 		return "C32/unexpected-member", fmt.Sprintf("configuration entry %s (id %s) was never acknowledged as joined or was acknowledged as removed; after %s; model: %s", s, id, after, want), false
 	}
+	leaderView := strings.Join(cfg, " ")
 	// every live member's own view: unique always; equal to the leader's eventually
 	for _, id := range e.sortedIDs() {
 		m := e.model[id]
@@ -263,7 +324,7 @@ func (e *env) check(after string) (sig, msg string, inconclusive bool) {
 				if s, mm := uniq(v); s != "" {
 					return s, fmt.Sprintf("%s in the view of member %s after %s: %v", mm, id, after, v), false
 				}
-				if strings.Join(v, " ") == want {
+				if strings.Join(v, " ") == leaderView {
 					break
 				}
 			}
@@ -349,32 +410,29 @@ func (e *env) join(n *vnode.Node, id, addr string, voter bool) error {
 	return err
 }
 
-// syncAfterFailedJoin: a failed join may leave the configuration unchanged or
-// with the requester's id absent; anything else is judged by check().
-func (e *env) syncAfterFailedJoin(id string) {
-	l := e.leader()
-	if l == nil {
+// failedJoin updates the model after a join request for (id, addr, voter) returned err. old is the
+// member's entry before the request (nil for a brand-new node); proc is the process that asked.
+// Clean rejection: nothing was appended by the add itself, but rqlite may already have removed the
+// old entry of the same id (remove-then-add), so absence becomes acceptable for an existing member.
+// Anything else: unknown outcome -- old form, absence and the requested form are all acceptable.
+func (e *env) failedJoin(id, addr string, voter bool, old *member, proc *vnode.Node, err error) {
+	if cleanReject(err) {
+		e.rec.Label("failed-op:clean-rejection")
+		if old != nil {
+			old.absentOK = true
+		}
 		return
 	}
-	cfg, err := vnode.Config(l)
-	if err != nil {
+	e.rec.Label("failed-op:unknown-outcome")
+	nf := form(id, addr, voter)
+	if old != nil {
+		if nf != form(id, old.addr, old.voter) {
+			old.alts = append(old.alts, nf)
+		}
+		old.absentOK = true
 		return
 	}
-	present := false
-	for _, s := range cfg {
-		if strings.HasPrefix(s, id+"@") {
-			present = true
-		}
-	}
-	if !present {
-		if m, ok := e.model[id]; ok {
-			if m.alive {
-				e.c.Stop(m.node)
-			}
-			delete(e.model, id)
-			e.rec.Label("failed-join-removed-requester")
-		}
-	}
+	e.model[id] = &member{id: id, addr: addr, voter: voter, node: proc, alive: false, deadAt: time.Now(), absentOK: true}
 }
 
 func (e *env) pickMember(pick int, f func(*member) bool) *member {
@@ -408,7 +466,7 @@ func (e *env) apply(o mop) (ok bool, desc string) {
 		}
 		if err := e.join(n, n.ID, n.Addr, o.Voter); err != nil {
 			e.c.Stop(n)
-			e.syncAfterFailedJoin(n.ID)
+			e.failedJoin(n.ID, n.Addr, o.Voter, nil, n, err)
 			return true, fmt.Sprintf("join-new %s voter=%v FAILED(%v)", n.ID, o.Voter, err)
 		}
 		e.model[n.ID] = &member{id: n.ID, addr: n.Addr, voter: o.Voter, node: n, alive: true}
@@ -427,10 +485,11 @@ func (e *env) apply(o mop) (ok bool, desc string) {
 		}
 		if err := e.join(n, m.id, n.Addr, o.Voter); err != nil {
 			e.c.Stop(n)
-			e.syncAfterFailedJoin(m.id)
+			e.failedJoin(m.id, n.Addr, o.Voter, m, n, err)
 			return true, fmt.Sprintf("rejoin-new-addr %s -> %s voter=%v FAILED(%v)", m.id, n.Addr, o.Voter, err)
 		}
 		m.addr, m.voter, m.node, m.alive = n.Addr, o.Voter, n, true
+		m.settle()
 		return true, fmt.Sprintf("rejoin-new-addr %s -> %s voter=%v", m.id, n.Addr, o.Voter)
 	case "reuse-addr":
 		m := e.pickMember(o.Pick, notLeader)
@@ -447,7 +506,7 @@ func (e *env) apply(o mop) (ok bool, desc string) {
 		}
 		if err := e.join(n, n.ID, n.Addr, o.Voter); err != nil {
 			e.c.Stop(n)
-			e.syncAfterFailedJoin(n.ID)
+			e.failedJoin(n.ID, n.Addr, o.Voter, nil, n, err)
 			return true, fmt.Sprintf("reuse-addr %s by new %s voter=%v FAILED(%v)", m.addr, n.ID, o.Voter, err)
 		}
 		// acknowledged: the newcomer owns the address now; the old owner cannot stay (uniqueness)
@@ -468,10 +527,11 @@ func (e *env) apply(o mop) (ok bool, desc string) {
 		}
 		if err := e.join(n, m.id, n.Addr, o.Voter); err != nil {
 			e.c.Stop(n)
-			e.syncAfterFailedJoin(m.id)
+			e.failedJoin(m.id, n.Addr, o.Voter, m, n, err)
 			return true, fmt.Sprintf("reuse-id %s at %s voter=%v FAILED(%v)", m.id, n.Addr, o.Voter, err)
 		}
 		m.addr, m.voter, m.node, m.alive = n.Addr, o.Voter, n, true
+		m.settle()
 		return true, fmt.Sprintf("reuse-id %s at %s voter=%v", m.id, n.Addr, o.Voter)
 	case "role-change", "rejoin-same":
 		m := e.pickMember(o.Pick, notLeader)
@@ -486,10 +546,11 @@ func (e *env) apply(o mop) (ok bool, desc string) {
 			}
 		}
 		if err := e.join(m.node, m.id, m.addr, want); err != nil {
-			e.syncAfterFailedJoin(m.id)
+			e.failedJoin(m.id, m.addr, want, m, m.node, err)
 			return true, fmt.Sprintf("%s %s voter=%v FAILED(%v)", o.Kind, m.id, want, err)
 		}
 		m.voter = want
+		m.settle()
 		return true, fmt.Sprintf("%s %s@%s voter=%v", o.Kind, m.id, m.addr, want)
 	case "remove":
 		m := e.pickMember(o.Pick, func(m *member) bool { return m.node != l })
@@ -497,6 +558,11 @@ func (e *env) apply(o mop) (ok bool, desc string) {
 			return false, ""
 		}
 		if err := l.Store.Remove(context.Background(), &proto.RemoveNodeRequest{Id: m.id}); err != nil {
+			// the entry may have been appended (typical when the change deposes the leader itself)
+			if !cleanReject(err) {
+				m.absentOK = true
+				e.rec.Label("failed-op:unknown-outcome")
+			}
 			return true, fmt.Sprintf("remove %s FAILED(%v)", m.id, err)
 		}
 		if m.alive {
@@ -703,7 +769,7 @@ func TestVerif_C32_Hist(t *testing.T) {
 		}
 		if p.Kill && e.c.Lost() == 0 {
 			l := e.leader()
-			m := e.pickMember(p.KillSel, func(m *member) bool { return m.alive && m.node != l })
+			m := e.pickMember(p.KillSel, func(m *member) bool { return m.alive && m.node != l && m.sure() })
 			if l != nil && m != nil && (!m.voter || e.canStopVoter()) {
 				e.killWatch(m, opts, reapWatch, fail)
 				interesting = true
